@@ -989,6 +989,31 @@ B('c03-benign-template-raise', 'C03', CG,
       raise''')
 
 # =========================================================================== C05
+S('c05-generic-range-one-bit-short', 'C05', F,
+  '''        integer = getattr(pkt, self.field_name)
+        raw = self.struct_obj.pack(integer)''',
+  '''        integer = getattr(pkt, self.field_name)
+        if abs(integer) > (1 << (self.byte_count * 8 - 1)) - 1:
+            raise ValueError("The value does not fit")
+        raw = self.struct_obj.pack(integer)''', 'R9-generic-range')
+S('c03-generic-range-one-bit-short', 'C03', F,
+  '''        integer = getattr(pkt, self.field_name)
+        raw = self.struct_obj.pack(integer)''',
+  '''        integer = getattr(pkt, self.field_name)
+        if abs(integer) > (1 << (self.byte_count * 8 - 1)) - 1:
+            raise ValueError("The value does not fit")
+        raw = self.struct_obj.pack(integer)''', 'R2-generic-sibling-strict')
+B('c05-benign-generic-range-beyond-the-code', 'C05', F,
+  '''        integer = getattr(pkt, self.field_name)
+        raw = self.struct_obj.pack(integer)''',
+  '''        integer = getattr(pkt, self.field_name)
+        if abs(integer) > (1 << (self.byte_count * 8)):
+            raise ValueError("The value does not fit")
+        raw = self.struct_obj.pack(integer)''')
+S('c12-parent-entry-only-if-new', 'C12', PK,
+  '''        self.fields_stack.append((offset, field_name, packet_class_name))''',
+  '''        if self.fields_stack[-1] != (offset, field_name, packet_class_name):
+            self.fields_stack.append((offset, field_name, packet_class_name))''', 'R7-stack-shape')
 S('c05-table-lowercase', 'C05', F, "code = {1: 'B', 2: 'H', 4: 'I', 8: 'Q'}[self.byte_count]", "code = {1: 'B', 2: 'H', 4: 'i', 8: 'Q'}[self.byte_count]", 'R9-struct-codes')
 S('c05-table-wrong-size', 'C05', F, "code = {1: 'B', 2: 'H', 4: 'I', 8: 'Q'}[self.byte_count]", "code = {1: 'B', 2: 'H', 4: 'I', 8: 'L'}[self.byte_count]", 'R9-struct-codes')
 S('c05-signed-dropped-unpack', 'C05', F,
